@@ -487,7 +487,7 @@ pub fn replay(sub: &str, case: &Value) -> Option<CheckResult> {
     let mut rec = Rec::new(0);
     Some(crate::engine::guarded(|| match sub {
         "set-builders-repeated-keys" => check_dups(&DupCase::from_json(case).ok_or_else(bad)?, &mut rec),
-        "large-recipes" => check_recipe(&Recipe::from_json(case).ok_or_else(bad)?, &mut rec),
+        "large-recipes" | "one-file-over-16MiB" => check_recipe(&Recipe::from_json(case).ok_or_else(bad)?, &mut rec),
         _ => check_input(&FstInput::from_json(case).ok_or_else(bad)?, true, &mut rec),
     }))
 }
